@@ -55,18 +55,20 @@ def build(tier, seed, exclude):
     ''')
     quick = tier == "quick"
     to = 110 if quick else 600
-    params = "sd: int" + ", k: int, n: int"
-    pre = [f"0 <= sd < {4 ** NS}", "0 <= k <= 3 and 1 <= n <= 3"]
-    ch = f"AP.S.decode(T.real(sd), {NS}, 4)"
+    # one condition per shape and concurrency limit; the schedule code is realised first, so the split length varies fastest
+    params = "sd: int, n: int"
+    pre = [f"0 <= sd < {4 ** NS}", "0 <= n <= 3"]
+    ch = f"AP.S.decode(sdr, {NS}, 4)"
     for shape in ("indep", "forkjoin", "split", "splitcomb"):
-        g.cond(f"h_{shape}", params, pre, f"""
-            kk = T.real(k)
-            err = _c17({shape!r}, T.real(n), {ch}, None if kk == 0 else kk)
-            return T.fail(err) if err else True
-        """, timeout=to)
+        for kk in (0, 1, 2, 3):
+            g.cond(f"h_{shape}_k{kk}", params, pre, f"""
+                sdr = T.real(sd)
+                err = _c17({shape!r}, T.real(n), {ch}, {None if kk == 0 else kk})
+                return T.fail(err) if err else True
+            """, timeout=to)
     g.cond("twin_c17", "c0: int", ["0 <= c0 < 2"], """
         err = _c17("indep", 1, [T.real(c0)], None)
         return False
     """, timeout=120, kind="twin")
     return g.spec(bounds={"shapes": ["indep", "forkjoin", "split (split node + chain)", "splitcomb (two splits, outer product, combine)"],
-                          "schedule": f"{NS} four-way decisions", "max_concurrent": "unlimited, 1..3", "split lengths": "1-3"})
+                          "schedule": f"{NS} four-way decisions", "max_concurrent": "unlimited, 1..3", "split lengths": "0-3"})
